@@ -172,7 +172,8 @@ def main(tier, seed):
     d = lib.casedir(PID)
     profiles = [{"ntypes": 1, "positive_costs": True}, {"ntypes": 1, "positive_costs": True, "slots": "some"},
                 {"depots": "ample", "positive_costs": True}, {"depots": "absent", "positive_costs": True},
-                {"positive_costs": True, "zero_shunting": True}, {"ntypes": 1}]
+                {"positive_costs": True, "zero_shunting": True}, {"ntypes": 1},
+                {"ntypes": 1, "zero_costs": True, "depots": "ample"}, {"zero_costs": True, "depots": "absent"}]
     insts = lib.load_corpus(PID) + [instgen.gen_instance(rng, rng.choice(profiles)) for _ in range(n)]
     results = lib.pmap(run_one, [(d, k, inst) for k, inst in enumerate(insts)])
     return solvefam.conclude(PID, tier, seed, t0, proof, results,
